@@ -53,6 +53,11 @@ def generate(R, tier):
         dbm = None if R.random() < 0.03 else [min(65535, max(1, R.choice([1500, 1492, 576, 1280, m, m + 1, m - 1]))) for _ in range(R.randint(0, 6))]
         c = {"stream": "built", "mode": "built", "v": v, "flags": fl, "opts": rand_opts(R), "m": m, "dbm": dbm,
              "frag": R.random() < 0.04}
+        if v == 6 and R.random() < 0.15:
+            # an IPv6 base with an extension header between IPv6 and TCP: still a TCP/IP packet for impersonate_mtu (the fingerprint side
+            # of extension headers is outside the model, so only the impersonated option list is judged)
+            c["exthdr"] = R.choice(["hbh", "dst", "rt"])
+            c["stream"] = "built-ipv6-exthdr"
         if R.random() < 0.5:
             spec, p, ty = G.rand_wire_pkt(R, flags=fl & 0x17 if fl & 0x17 else 2)
             spec["flags"] = fl
@@ -111,6 +116,11 @@ def model_cases(cases, impl_res, run_model):
         else:
             recs = db_lines(c["dbm"])[1]
             dbs = "%d %s" % (len(recs), " ".join("%d %d" % r for r in recs)) if recs else "0"
+        if c.get("exthdr"):
+            ab, _ = abstract(ir["before"])
+            lines.append("imp_mtu %d %d %d %s" % (c["m"], ir["ver"], len(ab), " ".join("%d %d" % x for x in ab)))
+            where.append((i, "imp"))
+            continue
         ao = "nogate" in ir and findings.scapy_ao_short(bytes.fromhex(W.full(c["spec"])["opts"])) if c["mode"] == "sniffed" else False
         if i in ex and not ao:
             e = ex[i]
@@ -181,6 +191,9 @@ def impl_init():
             base = U.scapy_from_spec(c["spec"])
         else:
             ip = IP(frag=5 if c.get("frag") else 0) if c["v"] == 4 else IPv6()
+            if c.get("exthdr"):
+                from scapy.layers.inet6 import IPv6ExtHdrDestOpt, IPv6ExtHdrHopByHop, IPv6ExtHdrRouting
+                ip = ip / {"hbh": IPv6ExtHdrHopByHop, "dst": IPv6ExtHdrDestOpt, "rt": IPv6ExtHdrRouting}[c["exthdr"]]()
             opts = [(n, tuple(v) if isinstance(v, list) else (bytes.fromhex(v[4:]) if isinstance(v, str) and v.startswith("hex:") else v)) for n, v in c["opts"]]
             base = ip / TCP(flags=c["flags"], seq=1, options=opts)
         if c.get("link"):
